@@ -7,6 +7,8 @@ open Datatypes
 open Json
 open List
 open OutViews
+open Plain
+open Pragma
 open State
 open Str
 open String
@@ -40,6 +42,8 @@ type case_result = { cr_relevant : bool; cr_roundtrip : bool;
                      cr_model_diags : str list; cr_extra : (str * str) list }
 
 val b2s : bool -> str
+
+val is_ok_status : jv -> bool
 
 val extras : jv -> jv -> (str * str) list
 
